@@ -52,6 +52,61 @@ def true_roots(A):
     return w, V[:m, :]
 
 
+def root_sensitivity(A):
+    """max_j eps * kappa_j / (|z_j| |log z_j|): first-order bound (in units of rounding) on the relative error of the
+    continuous-time pole log(z_j)/dt of a backward-stable eigen-solution of the linearised polynomial eigenproblem;
+    kappa_j = |y_j| |x_j| (|L0| + |z_j| |L1|) / |y_j^H L1 x_j| from the left/right eigenvectors of the harness's own pencil."""
+    n = A.shape[0] - 1
+    m = A.shape[1]
+    L0 = np.zeros((n * m, n * m))
+    L1 = np.eye(n * m)
+    for i in range(n - 1):
+        L0[i * m:(i + 1) * m, (i + 1) * m:(i + 2) * m] = np.eye(m)
+    for i in range(n):
+        L0[(n - 1) * m:, i * m:(i + 1) * m] = -A[i]
+    L1[(n - 1) * m:, (n - 1) * m:] = A[n]
+    w, vl, vr = scipy.linalg.eig(L0, L1, left=True, right=True)
+    n0, n1 = np.linalg.norm(L0, 2), np.linalg.norm(L1, 2)
+    worst = 0.0
+    for j in range(len(w)):
+        den = abs(vl[:, j].conj() @ L1 @ vr[:, j])
+        if den == 0 or not np.isfinite(w[j]) or w[j] == 0:
+            return np.inf
+        kappa = np.linalg.norm(vl[:, j]) * np.linalg.norm(vr[:, j]) * (n0 + abs(w[j]) * n1) / den
+        worst = max(worst, kappa / (abs(w[j]) * max(abs(np.log(complex(w[j]))), 1e-300)))
+    return float(np.finfo(float).eps * worst)
+
+
+def gen_near_monic(rng, n, Nch, Nref, d, lo, tries=100000):
+    """Polynomial matrices whose LEADING coefficient is I + D, |D| ~ d (d = 0: exactly I): lo=True with A_0 = I
+    (a normalised "LO" model with nearly self-reciprocal denominator), lo=False with a generic A_0 (a perturbed "HI" model)."""
+    for _ in range(tries):
+        A = dyad(rng, (n + 1, Nch, Nch))
+        # D = diagonal of size d plus off-diagonal entries of size min(d, 5e-9): a leading coefficient that an absolute/relative
+        # closeness test (np.allclose defaults: 1e-8 + 1e-5 |b|) takes for the identity although it is not
+        D = np.diag(d * rng.uniform(0.3, 1.0, size=Nch) * rng.choice([-1.0, 1.0], size=Nch))
+        off = min(d, 5e-9) * rng.uniform(0.3, 1.0, size=(Nch, Nch)) * rng.choice([-1.0, 1.0], size=(Nch, Nch))
+        A[n] = np.eye(Nch) + D + off * (1 - np.eye(Nch))
+        if lo:
+            A[0] = np.eye(Nch)
+        elif np.linalg.cond(A[0]) > 12:
+            continue
+        z, _ = true_roots(A)
+        if not np.all(np.isfinite(z)):
+            continue
+        r = np.abs(z)
+        if r.min() < 0.2 or r.max() > 5 or np.abs(r - 1).min() < 0.06:
+            continue
+        dd = np.abs(z[:, None] - z[None, :]) + 10 * np.eye(len(z))
+        if dd.min() < (0.08 if n * Nch <= 9 else 0.03):
+            continue
+        B = dyad(rng, (n + 1, Nref, Nch))
+        if np.abs(B).max() == 0:
+            continue
+        return A, B
+    raise RuntimeError("gen_near_monic: no acceptable draw")
+
+
 def polyval_mat(C, z):
     return sum(C[i] * z ** i for i in range(C.shape[0]))
 
@@ -347,7 +402,26 @@ def compare_tables_with_model(ctx, case, tables, model_s, cols, key):
     return ok
 
 
-def oracle_order_column(ctx, case, tables, A, B, dt, method, nxseg, col, Nch, ordmax, key, tol=None):
+def match_cells_rel(exp, got):
+    """One-to-one matching; returns (worst relative fn / absolute xi distance, worst shape distance) under it.
+    Values decide the matching, shapes break the tie between the two members of a complex-conjugate pair."""
+    if not exp:
+        return 0.0, 0.0
+    val = np.array([[max(abs(e["fn"] - g["fn"]) / max(e["fn"], 1e-300), abs(e["xi"] - g["xi"])) for g in got] for e in exp])
+    phi = np.array([[0.0 if (e.get("tie") or g.get("tie")) else float(np.abs(np.asarray(e["phi"]) - np.asarray(g["phi"])).max()) for g in got] for e in exp])
+    r, c = linear_sum_assignment(np.minimum(val, 1.0) * 1e6 + np.minimum(phi, 10.0))
+    return float(val[r, c].max()), float(phi[r, c].max())
+
+
+def direct_tols(A):
+    """Tolerances of the coefficients-given-directly streams, as tight as the unchanged code's accuracy warrants: with
+    q = root_sensitivity(A) the unchanged tree reaches (600 draws, all variants): pole values <= 1.7 q (max 8e-14), shapes
+    <= 7 q (max 3.4e-14), realisation residual <= 3 q (max 1e-14).  30x margins, floor 1e-11."""
+    q = root_sensitivity(A)
+    return max(1e-11, 60 * q), max(1e-11, 250 * q), max(1e-11, 100 * q)
+
+
+def oracle_order_column(ctx, case, tables, A, B, dt, method, nxseg, col, Nch, ordmax, key, tol=None, tight=None):
     """Property text: at order n one pole per root with non-positive real part (fn = |lam|/2pi, xi = -Re lam/|lam|),
     nothing else; every other cell NaN, jointly in the tables; (ordmax+1) Nch rows."""
     Fn, Xi, Phi = tables[0], tables[1], tables[2]
@@ -373,6 +447,20 @@ def oracle_order_column(ctx, case, tables, A, B, dt, method, nxseg, col, Nch, or
     # methodSy='cor' adds the library's exponential-window correction to the mapped roots (judged by C08, not here):
     # frequency/damping VALUES are judged with 'per'; count, joint NaN pattern and mode shapes with both
     use_val = method == "per"
+    if tight is not None:
+        tol_val, tol_phi = tight
+        if not (np.isfinite(tol_val) and tol_val < TOL_POLE):
+            tight = None
+    if tight is not None:
+        dval, dphi = match_cells_rel(exp, got)
+        if use_val and dval > tol_val:
+            ctx.fail("oracle", "order-n column: reported fn/xi differ from the roots of det A(z) mapped to continuous time by %.3g relative "
+                     "(tolerance %.1g from the conditioning of the roots; the unchanged code reaches rounding level here)" % (dval, tol_val),
+                     case, key="C05:%s:values" % key)
+        elif dphi > tol_phi:
+            ctx.fail("oracle", "order-n column: reported mode shapes (B(z) v, unity-normalised) differ by %.3g (tolerance %.1g)" % (dphi, tol_phi),
+                     case, key="C05:%s:shapes" % key)
+        return
     tol = TOL_POLE if tol is None else tol
     d = match_cells(exp, got, tol, use_val=use_val)
     if d > tol:
@@ -647,14 +735,22 @@ def run(ctx):
         while np.linalg.cond(A[p]) > 50:
             A = dyad(rng, (p + 1, m, m), amp=12, den=4)
         B = dyad(rng, (p + 1, l_, m), amp=12, den=4)
+        near = None
+        if k % 12 < 10 and k < (12 if quick else 60):
+            # leading coefficient I + D, |D| = 1e-3 .. 1e-9 and exactly I; A_0 = I ("LO" normalisation) or generic ("HI"-like)
+            near = ([1e-3, 1e-6, 1e-7, 1e-9, 0.0][k % 12 % 5], k % 12 < 5)
+            p = min(max(p, 2) if near[1] else p, 3)  # 53-bit entries: keep the exact Qc solve (and its printed result) small
+            m = min(max(m, 2), 3)
+            A, B = gen_near_monic(rng, p, m, l_, near[0], near[1])
         degenerate = None
-        if k % 7 == 3:
+        if k % 7 == 3 and near is None:
             A[0, :, 0] = 0  # malformed stream: singular A_0 (root z = 0 next to the border zeros)
             degenerate = "singular A_0"
-        if k % 7 == 5:
+        if k % 7 == 5 and near is None:
             B[:, 0, :] = 0  # zero reference row
             degenerate = "zero B row"
-        case = dict(kind="rmfd2ac", p=p, m=m, l=l_, A_den=A.tolist(), B_num=B.tolist(), degenerate=degenerate)
+        case = dict(kind="rmfd2ac", p=p, m=m, l=l_, A_den=A.tolist(), B_num=B.tolist(), degenerate=degenerate,
+                    leading=None if near is None else "I + D, |D| = %g, A_0 %s" % (near[0], "= I" if near[1] else "generic"))
         ctx.count(case, nontrivial=p >= 2 or m != l_)
         ctx.hist("rmfd2ac(p,m,l)", (p, m, l_))
         try:
@@ -681,7 +777,8 @@ def run(ctx):
                 sc = max(1.0, float(np.abs(w).max())) * max(1.0, float(np.abs(Ac).max()), abs(z[j]))
                 bad = max(bad, float(np.abs(Ac @ w - z[j] * w).max()) / sc,
                           float(np.abs(Cc @ w - polyval_mat(B, z[j]) @ v).max()) / (sc * max(1.0, float(np.abs(B).max()))))
-            if bad > 1e-7:
+            tol_real = direct_tols(A)[2]
+            if bad > (tol_real if tol_real < 1e-7 else 1e-7):
                 ctx.fail("oracle", "rmfd2ac: (A, C) is not a realisation of B(z) A(z)^-1: a latent pair of A(z) is not an eigenpair with output B(z) v (residual %.3g)" % bad,
                          case, key="C05:rmfd2ac:realisation")
             ev = np.linalg.eigvals(Ac)
@@ -692,7 +789,7 @@ def run(ctx):
 
     # ---------------- 3. pLSCF_poles on coefficient lists given directly: several orders, true coefficients at order n
     direct = load_corpus("poles-direct")
-    for k in range(-len(direct), ctx.n(14, 80)):
+    for k in range(-len(direct), ctx.n(20, 90)):
         if k < 0:
             it = direct[k + len(direct)]
             Ad, Bn, n, dt, method, nxseg = it["Ad"], it["Bn"], it["n"], it["dt"], it["method"], it["nxseg"]
@@ -709,7 +806,13 @@ def run(ctx):
             dt = float(dts[int(rng.integers(0, len(dts)))])
             method = "per" if k % 3 else "cor"
             nxseg = int(rng.choice([32, 128, 1024]))
-            A, B = gen_system(rng, n, Nch, Nref)
+            if k < 10:
+                # leading coefficient I + D (|D| = 1e-3, 1e-6, 1e-7, 1e-9, 0) with A_0 = I (k < 5) or generic A_0
+                n = max(n, 2) if k < 5 else n
+                A, B = gen_near_monic(rng, n, Nch, Nref, [1e-3, 1e-6, 1e-7, 1e-9, 0.0][k % 5], k < 5)
+                method = "per" if k % 5 != 4 else method
+            else:
+                A, B = gen_system(rng, n, Nch, Nref)
             Ad, Bn = [], []
             for o in range(1, ordmax + 1):
                 if o == n:
@@ -736,7 +839,7 @@ def run(ctx):
             ctx.fail("oracle", "pLSCF_poles raised %s on a valid coefficient list" % type(e).__name__, case, key="C05:poles:raise")
             continue
         if degenerate is None:
-            oracle_order_column(ctx, case, tables, A, B, dt, method, nxseg, n - 1, Nch, ordmax, "direct")
+            oracle_order_column(ctx, case, tables, A, B, dt, method, nxseg, n - 1, Nch, ordmax, "direct", tight=direct_tols(A)[:2])
         try:
             cols, eres = witness_columns(Ad, Bn, dt)
         except Exception as e:  # noqa: BLE001
